@@ -286,17 +286,11 @@ def _fold_members(ctx: Ctx, idx):
     cm = idx.get(P_CLASSES)
     hm = idx.get("generator/plugins/dotnet/dotnet_helpers.py")
     hit = microeval.Interp(hm.tree, name=hm.rel)
-    it = microeval.Interp(name=P_CLASSES)
-    # real helpers that are pure string functions
-    for nm in ("to_upper_camel_case", "to_camel_case", "get_parts", "indent_lines", "get_special_case_property_name",
-               "get_special_case_class_name"):
-        if nm in hit.globals:
-            it.globals[nm] = hit.globals[nm]
-    for nm in ("has_null_base_type", "filter_null_base_type"):
-        fn = cm.functions.get(nm)
-        if fn is None:
-            raise AnalysisError(f"{P_CLASSES}: {nm} not found")
-        it.globals[nm] = microeval.Closure(fn, None, it)
+    # every function of the module is available to the fold (helpers extracted by refactorings included); the
+    # collaborators that need the whole model are stubbed below
+    it = microeval.Interp(cm.tree, name=P_CLASSES)
+    for nm, v in hit.globals.items():
+        it.globals.setdefault(nm, v)
     gp, gc = cm.functions.get("generate_property"), cm.functions.get("generate_constructor")
     if gp is None or gc is None:
         raise AnalysisError(f"{P_CLASSES}: generate_property / generate_constructor not found")
